@@ -208,6 +208,26 @@ def run(tier: str) -> int:
                         rep.violation(f"a child re-widening field f to Optional[{pk}] below a @make_mandatory parent was accepted "
                                       "without declaration; its instance without f is rejected by the parent", {"prim": pk})
         rep.parts["make_mandatory_chains"] = {"cases": nmm}
+        # the check is wired into plugin loading: plugins with an undeclared incompatible override (own, or made by an
+        # unregistered class between them and their parent plugin) are refused when the plugin group loads them
+        from . import synth, c13models as LM
+        from metador_core.plugins import schemas as _schemas
+        synth.register_package("vl-pkg", "1.0.0", LM.CLASSES)
+        for pname, should_load in LM.EXPECT.items():
+            try:
+                _schemas[pname]
+                loaded = True
+            except TypeError:
+                loaded = False
+            except Exception as ex:
+                loaded = False
+                if should_load:
+                    rep.violation(f"loading the valid schema plugin {pname} raised {type(ex).__name__}: {str(ex)[:120]}", {"plugin": pname})
+                    continue
+            if loaded != should_load:
+                rep.violation(f"schema plugin {pname}: {'loaded although its class chain contains an undeclared incompatible override' if loaded else 'refused although valid'}",
+                              {"plugin": pname})
+        rep.parts["plugin_loading"] = {"plugins": len(LM.EXPECT), "must_be_refused": sum(1 for v in LM.EXPECT.values() if not v)}
         # extra policy must not be loosened by a child
         from pydantic import Extra
 
@@ -237,6 +257,8 @@ def run(tier: str) -> int:
             pool[cls.Plugin.name] += [CL.instances(key, fam_rng) for _ in range(6)]
         from . import geninst
         for ref in list(schemas.keys()):
+            if ref.name in LM.EXPECT and not LM.EXPECT[ref.name]:
+                continue     # the deliberately invalid plugins of the loading part
             cls = schemas._get_unsafe(ref.name, ref.version)
             chain = schemas.parent_path(ref.name, ref.version)[:-1]
             gen = []
